@@ -83,8 +83,13 @@ class Sim:
         self.used = set()          # every name ever used (directory-prefix freedom over the whole history)
         self.deletes = self.overwrites = 0
         root = os.path.join(self.work, 'repo')
-        os.makedirs(os.path.join(root, 'x', 'y'))
+        os.makedirs(root)
         sp = cfg['spelling']
+        # helper directories exist only where the spelling needs them (a stray directory would collide with object names)
+        if sp == 'double':
+            os.makedirs(os.path.join(root, 'x', 'y'))
+        elif sp == 'dotdot':
+            os.makedirs(os.path.join(root, 'x'))
         if sp == 'abs':
             conn, self.local_root = root, root
         elif sp == 'rel':
